@@ -94,15 +94,31 @@ impl Partition {
         }
 
         let segments = self.filter_segments_by_offsets(start_offset, end_offset);
-        match segments.len() {
-            0 => Ok(Vec::new()),
+        let mut messages = match segments.len() {
+            0 => Vec::new(),
             1 => {
                 segments[0]
                     .get_messages_by_offset(start_offset, count)
-                    .await
+                    .await?
             }
-            _ => Self::get_messages_from_segments(segments, start_offset, count).await,
+            _ => Self::get_messages_from_segments(segments, start_offset, count).await?,
+        };
+
+        // Under no-wait confirmation a batch handed to the persister task is, until it is written,
+        // neither in the buffer nor in the file: never return messages from beyond such a hole.
+        if messages
+            .first()
+            .is_some_and(|message| message.offset != start_offset)
+        {
+            return Ok(Vec::new());
         }
+
+        let contiguous = messages
+            .windows(2)
+            .position(|pair| pair[1].offset != pair[0].offset + 1)
+            .map_or(messages.len(), |index| index + 1);
+        messages.truncate(contiguous);
+        Ok(messages)
     }
 
     // Retrieves the first messages (up to a specified count).
